@@ -18,6 +18,16 @@ CHECKS = {
    note=TB + "Views are compared with tolerance 1e-9·scale, never bit-for-bit; score_pairs must equal pair_distance exactly.",
    technique="Lean 4 proof (matrix algebra, posSemidef_conjTranspose_mul_self) + differential correspondence model↔code",
    ref="§6 C02"),
+ 'C04': dict(
+   text="Decision-logic theorems over ℝ (ties included): predict=+1 ⇔ d ≤ threshold, monotone in distance and in threshold, decision_function = −distance; triplet +1 ⇔ d(a,b)<d(a,c) and score = fraction predicted +1; quadruplet prediction = sign of d(c,d)−d(a,b); swapping the compared pairs negates the decision; after any history of fit/calibrate/set_threshold the stored threshold is the last one written. Tie: the exact-rational (Rat) twin is fed the implementation's own distances and must reproduce every prediction exactly, decision values bitwise (Float twin), AUC and score fraction; implementation-only oracle checks the same equalities on ITML/MMC/SDML/SCML/LSML, formed and through preprocessors, with tie-rich tuples.",
+   note=TB + "roc_auc_score is assumed to be the Mann–Whitney statistic with half credit for ties (checked per call against the model's auc).",
+   technique="Lean 4 proof (decision logic) + exact Rat twin on the implementation's own distances",
+   ref="§6 C04"),
+ 'C16': dict(
+   text="Master theorem over ℝ: for any criterion and any feasibility constraint that see the threshold only through the prediction vector, the first maximiser over {reject-all} ∪ observed distances is feasible and optimal over all real thresholds (validation sets of any size, ties, conflicting duplicates, zero distances); accuracy, F-beta (any β), max-TPR s.t. TNR ≥ r and max-TNR s.t. TPR ≥ r are instances; parameter validation characterised exactly. Tie: the Rat twin computes the optimum on the implementation's own distances/labels and the criterion value attained by the implementation's threshold_ must equal it (plus feasibility); an independent exact brute-force oracle is run on the implementation alone; invalid calibration parameters must raise ValueError before components_ exists.",
+   note=TB + "roc_curve / precision_recall_curve are external: only the criterion value attained by threshold_ is compared, never the threshold itself; min_rate values are kept 1e-6 away from attainable rates unless dyadic so float rounding cannot decide feasibility.",
+   technique="Lean 4 proof (calibration master theorem) + exact Rat twin + brute-force oracle",
+   ref="§6 C16"),
 }
 
 NOT_YET = {}
